@@ -155,9 +155,14 @@ func (e *executor) collectDeath() *death {
 
 // pool is the per-worker supervisor state.
 type pool struct {
-	prop string
-	ex   *executor
+	prop   string
+	ex     *executor
+	deaths int // executor deaths so far in this worker
 }
+
+// tooManyDeaths: every death costs a process start and, for out-of-memory deaths, seconds of page
+// faults; a run that keeps killing its executor has FAILED already and is cut short (reported as capped).
+func (p *pool) tooManyDeaths(limit int) bool { return p.deaths >= limit }
 
 func (p *pool) run(c any, into any) (*death, error) {
 	if p.ex == nil {
@@ -176,6 +181,7 @@ func (p *pool) run(c any, into any) (*death, error) {
 	}
 	if d != nil {
 		p.ex = nil
+		p.deaths++
 		return d, nil
 	}
 	return nil, json.Unmarshal(res, into)
